@@ -99,6 +99,15 @@ typedef struct VmState {
     /* Error info */
     VmResult last_error;
     char error_msg[256];
+
+#ifdef NANOLANG_VERIF
+    /* Verification hooks (compiled only with -DNANOLANG_VERIF):
+     * an instruction budget and a callback at every instruction boundary. */
+    int      verif_fuel_on;         /* non-zero: verif_fuel limits dispatched instructions */
+    uint64_t verif_fuel;            /* instructions still allowed */
+    int      verif_fuel_exhausted;  /* set when the budget ran out (reported as VM_ERR_NOT_IMPLEMENTED) */
+    void   (*verif_step_hook)(struct VmState *vm, uint32_t ip);
+#endif
 } VmState;
 
 /* ========================================================================
